@@ -16,6 +16,7 @@ m("C01","drop-setcoords-error","linestring.go","	if err := g.setCoords(coords); 
 # ---- C02
 m("C02","push-append-before-check","polygon.go","	if lr.layout != g.layout {\n		return ErrLayoutMismatch{Got: lr.layout, Want: g.layout}\n	}\n	g.flatCoords = append(g.flatCoords, lr.flatCoords...)","	g.flatCoords = append(g.flatCoords, lr.flatCoords...)\n	if lr.layout != g.layout {\n		return ErrLayoutMismatch{Got: lr.layout, Want: g.layout}\n	}","push-guarded-atomic/(*geom.Polygon).Push")
 m("C02","mls-push-no-check","multilinestring.go","	if ls.layout != g.layout {\n		return ErrLayoutMismatch{Got: ls.layout, Want: g.layout}\n	}\n","","push-guarded-atomic/(*geom.MultiLineString).Push")
+m("C02","revert-capacity-cap","multipolygon.go","g.flatCoords[offset:end:end]","g.flatCoords[offset:end]","growable-part-capacity-capped/(*geom.MultiPolygon).Polygon")
 m("C02","reverse-also-ends","flat.go","func (g *geom2) Reverse() {\n	reverse2(g.flatCoords, 0, g.ends, g.stride)","func (g *geom2) Reverse() {\n	for i, j := 0, len(g.ends)-1; i < j; i, j = i+1, j-1 {\n		g.ends[i], g.ends[j] = g.ends[j], g.ends[i]\n	}\n	reverse2(g.flatCoords, 0, g.ends, g.stride)","reverse-writes-ordinates-only")
 # ---- C03
 m("C03","swap-xyz-xym-codes","encoding/wkb/wkb.go","	wkbXYZID  = 1000\n	wkbXYMID  = 2000","	wkbXYZID  = 2000\n	wkbXYMID  = 1000","type-word-evaluated/wkb.")
